@@ -81,6 +81,11 @@ lemma L_pos_asymmetric [C16]: forall a, b token.Position :: !(posLess(a, b) && p
 lemma L_pos_transitive [C16]: forall a, b, c token.Position :: posLess(a, b) && posLess(b, c) ==> posLess(a, c)
 lemma L_pos_total [C16]: forall a, b token.Position :: a != b ==> posLess(a, b) || posLess(b, a)
 
+// the comparator that orders a module's import statements for the recursive module walk (VisitModuleRec)
+func visitModuleRec$1 [C16]
+  requires 0 <= i && i < len(imports) && 0 <= j && j < len(imports)
+  ensures result == posLess(imports[i].Range.Start, imports[j].Range.Start)
+
 // ---- C16: the arguments of a call / Kombination literal are kept in a map; whoever walks them must not depend on
 // the map's iteration order. SortedArgNames fixes the order: by position in the source, names break ties ----
 spec argBefore(pa token.Position, na string, pb token.Position, nb string) bool :=
